@@ -45,10 +45,15 @@ def judge(case):
             masses2 = np.array(m2.atoms.masses, dtype=float)
             names = list(m1.atoms.names) + list(m2.atoms.names)
             types = list(m1.atoms.types) + list(m2.atoms.types)
+            arr_before = arr.copy()
             with quiet():
                 pt = Pseudotrajectory(m1, m2, arr)
                 uni = pt.get_pt_as_universe()
                 frames = [np.array(ts.positions, dtype=float) for ts in uni.trajectory]
+            if not np.array_equal(arr, arr_before):
+                return ["building the pseudotrajectory modified the grid array that was passed in"]
+            if np.abs(np.array(m1.atoms.positions, dtype=float) - ref1).max() > 0 or np.abs(np.array(m2.atoms.positions, dtype=float) - ref2).max() > 0:
+                return ["building the pseudotrajectory moved the molecules that were passed in"]
         except Exception as e:
             return [f"exception {type(e).__name__}: {e}"]
         n1, n2 = len(ref1), len(ref2)
